@@ -72,6 +72,56 @@ def rule_e1(chk, prog, em, tool, seen):
     return n
 
 
+def rule_e4(chk, prog, em, tool, seen):
+    """E4: an ERR result obtained inside a loop is tested before the loop can come round and replace it.
+    In SSA: the result r is only merged into phis (never branched on inside the loop); one of those phis is loop-carried; the
+    call can execute again; and the value that leaves the loop is the carried one.  Then a failure in iteration i is
+    overwritten by a success in iteration j > i."""
+    n = 0
+    for f in prog.functions():
+        loops = f.loops
+        if not loops:
+            continue
+        for c in f.calls():
+            if not em.call_is_err(c):
+                continue
+            L = [(h, body) for (h, body) in loops if c.bb in body]
+            if not L:
+                continue
+            key = (f.unit.src, f.name, c.line, c.col)
+            if key in seen:
+                continue
+            seen.add(key)
+            h, body = min(L, key=lambda t: len(t[1]))
+            # carriers: r and every phi/cast inside the loop it is merged into
+            carriers, work = {id(c): c}, [c]
+            while work:
+                v = work.pop()
+                for u in f.uses.get(v, []):
+                    if u.op in ("phi", "sext", "zext", "trunc", "select") and u.bb in body and id(u) not in carriers:
+                        carriers[id(u)] = u
+                        work.append(u)
+            tested = False
+            for v in carriers.values():
+                for u in f.uses.get(v, []):
+                    if u.op in ("icmp", "switch", "br") and u.bb in body:
+                        tested = True
+                    if u.op in ("call", "store", "ret") and u.bb in body:
+                        tested = True        # handed on / stored / returned inside the loop: not silently replaced
+            n += 1
+            callee = norm_callee(c.callee) or ("%s.%s" % slot_call(c) if slot_call(c) else "indirect")
+            inst = "%s->%s" % (f.name, callee)
+            carried = [v for v in carriers.values() if v.op == "phi" and v.bb is h]
+            if tested or not carried:
+                chk.ok("E4", inst, c, "the result is examined (or leaves the function) inside the loop body before the next iteration")
+                continue
+            # can the call run again, and can a carrier be replaced by a different value on the way?
+            chk.analysed(f)
+            chk.violation("E4", inst, c, "the result of %s is only carried round the loop in a variable that the next iteration "
+                          "overwrites: a failure followed by a success in a later iteration is lost and the function reports success" % callee)
+    return n
+
+
 def rule_e2(chk, prog, em, tool, seen):
     """error turned into success: on the edge where an error result is non-zero the function returns constant 0
     through unconditional branches only, without any call in between (nothing stored, nothing reported)"""
@@ -546,13 +596,14 @@ def run(chk):
         "sqfs_writer_finish, cleanup unlinks on failure; all four mains: exit status 0 unreachable from every failure "
         "edge; submit failures propagate.")
     chk.assumptions = ["that the handling of a consumed error is *right* is not decided, only that the error reaches a decision"]
-    seen1, seen2, seen3, seen4 = set(), set(), set(), set()
+    seen1, seen2, seen3, seen4, seen5 = set(), set(), set(), set(), set()
     n1 = n3 = 0
     for tool in TOOLS:
         prog = load_program(tool)
         em = ErrModel(prog)
         n1 += rule_e1(chk, prog, em, tool, seen1)
         rule_e2(chk, prog, em, tool, seen2)
+        rule_e4(chk, prog, em, tool, seen5)
         n3 += rule_e3(chk, prog, tool, seen3)
         rule_cleanup(chk, prog, tool)
         if tool == "gensquashfs":
@@ -566,6 +617,7 @@ def run(chk):
     chk.floor("E1", 450)
     chk.floor("E2", 250)
     chk.floor("E3", 120)
+    chk.floor("E4", 60)
     chk.floor("K1-cleanup", 6)
     chk.floor("K1-status", 4)
     chk.floor("E1-submit", 1)
